@@ -242,7 +242,7 @@ void Dumper::expr_rec(std::string& out, const expression_t& e, int depth)
             expr_rec(out, e.get(i), depth + 1);
         }
     }
-    if (k == DOT && n == 1 && !e.get(0).empty()) {
+    if (field_names && k == DOT && n == 1 && !e.get(0).empty()) {
         // field name, resolved through the operand's type when that is a record or process
         type_t t = e.get(0).get_type();
         int32_t idx = e.get_index();
@@ -512,6 +512,17 @@ std::string Dumper::stmt(Statement* s)
 // ------------------------------------------------------------------------------------------------
 // documents
 
+static std::string safe_str(const expression_t& e)
+{
+    if (e.empty())
+        return "";
+    try {
+        return e.str();
+    } catch (const std::exception&) {
+        return "<exc>";
+    }
+}
+
 static void dump_frame(vj::W& w, Dumper& d, const frame_t& f)
 {
     w.arr();
@@ -629,7 +640,9 @@ static void dump_template(vj::W& w, Dumper& d, template_t& t)
         w.key("urgent").boolean(lt.is(URGENT));
         w.key("committed").boolean(lt.is(COMMITTED));
         w.key("inv").str(d.expr(l.invariant));
+        w.key("inv_str").str(safe_str(l.invariant));
         w.key("exprate").str(d.expr(l.exp_rate));
+        w.key("exprate_str").str(safe_str(l.exp_rate));
         w.key("costrate").str(d.expr(l.cost_rate));
         w.end();
     }
@@ -667,6 +680,25 @@ static void dump_template(vj::W& w, Dumper& d, template_t& t)
         w.key("sync").str(d.expr(e.sync));
         w.key("assign").str(d.expr(e.assign));
         w.key("prob").str(d.expr(e.prob));
+        w.key("guard_str").str(safe_str(e.guard));
+        w.key("sync_str").str(safe_str(e.sync));
+        w.key("assign_str").str(safe_str(e.assign));
+        w.key("prob_str").str(safe_str(e.prob));
+        w.key("select_decl").arr();
+        if (!(e.select == frame_t()))
+            for (uint32_t i = 0; i < e.select.get_size(); ++i) {
+                type_t st = e.select[i].get_type();
+                if (st.get_kind() == CONSTANT && st.size() == 1)
+                    st = st.get(0);  // select binders are implicitly constant
+                std::string decl;
+                try {
+                    decl = st.declaration();
+                } catch (const std::exception&) {
+                    decl = "<exc>";
+                }
+                w.arr().str(e.select[i].get_name()).str(decl).end();
+            }
+        w.end();
         w.end();
     }
     w.end();
